@@ -432,13 +432,13 @@ FactsOk(e, g) ==
 ExportEv(e) ==
   LET g == gs[e.h]
       p == IF e.op \in {"xml", "dot"} THEN "C18" ELSE "C20" IN
-  IF void \/ div \/ IsNull(g) THEN Voided
+  IF void \/ div \/ IsNull(g) THEN Cur          \* a read-only observer never ends the judging of a trace
   ELSE [Cur EXCEPT !.fails = fails
           \cup (IF FactsOk(e, g) THEN {} ELSE {F(e, p, e.op \o ": the printed vertices, edges or data are not exactly those of the graph")})
           \cup (IF e.stable THEN {} ELSE {F(e, p, e.op \o ": two graphs with the same vertices, edges and data print differently")})]
 VPrintEv(e) ==
   LET g == gs[e.h] IN
-  IF void \/ div \/ IsNull(g) \/ e.v \notin g.present THEN Voided
+  IF void \/ div \/ IsNull(g) \/ e.v \notin g.present THEN Cur
   ELSE [Cur EXCEPT !.fails = fails
           \cup (IF e.wellformed /\ (e.marker <=> g.st[e.v] # "empty") THEN {} ELSE {F(e, "C20", "v_print: data marker wrong")})
           \cup (IF e.wellformed /\ ToSet(e.labels) = LabelsOf(g, e.v) /\ Len(e.labels) = Len(g.edges[e.v]) THEN {}
@@ -447,7 +447,7 @@ InspectEv(e) ==
   LET g == gs[e.h]
       R == Reach(g, e.v, AllP)
       want == UNION {{<<u, g.edges[u][i][1], g.edges[u][i][2]>> : i \in 1..Len(g.edges[u])} : u \in R} IN
-  IF void \/ div \/ IsNull(g) \/ e.v \notin g.present \/ ~(R \subseteq g.present) THEN Voided
+  IF void \/ div \/ IsNull(g) \/ e.v \notin g.present \/ ~(R \subseteq g.present) THEN Cur   \* dangling edges: left open
   ELSE [Cur EXCEPT !.fails = fails
           \cup (IF e.wellformed /\ Len(e.edges) = Cardinality(want) /\ \A x \in want : Once(e.edges, x) THEN {}
                  ELSE {F(e, "C20", "inspect: does not list every reachable edge exactly once (or failed / did not parse)")})]
@@ -497,7 +497,7 @@ DeployEv(e) ==
 (* ------------------------- truncated image (C09) -------------------------------------------- *)
 \* the file left behind by save() was cut at byte k (0 <= k < size of the file): load() must return an error
 TruncLoadEv(e) ==
-  IF void \/ IsNull(gs[e.h]) THEN Voided
+  IF void \/ IsNull(gs[e.h]) THEN Cur
   ELSE [Cur EXCEPT !.fails = fails \cup
           (IF e.k < e.size
            THEN (IF e.ret = "err" THEN {} ELSE {F(e, "C09", IF e.ret = "ok" THEN "a truncated image was loaded as a graph" ELSE "load() of a truncated image panicked")})
